@@ -31,6 +31,27 @@ type csSuite struct {
 	stat map[string]int
 	scale int
 	force bool // bias every choice towards a valid message (used to seed pools in a new world)
+	laterOn bool // some transactions fail in a later message (coinswap suite only)
+	later   bool // ... this one
+}
+
+// deliver: World.Deliver; with laterOn, one transaction in fifteen fails in a LATER message (a multi-message transaction
+// whose second message is invalid): everything this message did is discarded with it.
+func (s *csSuite) deliver(f func(ctx sdk.Context) error) Outcome {
+	s.later = s.laterOn && !s.force && s.r.Intn(15) == 0
+	hok := false
+	out := s.w.Deliver(func(ctx sdk.Context) error {
+		err := f(ctx)
+		if err == nil && s.later {
+			hok = true
+			return fmt.Errorf("a later message of the transaction failed")
+		}
+		return err
+	})
+	if hok {
+		out.Class = "later"
+	}
+	return out
 }
 
 func pow2(n int) sdkmath.Int {
@@ -345,6 +366,10 @@ func (s *csSuite) emit(kind, args string, out Outcome, resp string, preMod strin
 	s.t.seq++
 	post := s.w.Snapshot()
 	md := s.modDelta(preMod)
+	if s.later {
+		args += " later=1"
+		s.later = false
+	}
 	line := fmt.Sprintf("O %d %s %s => %s %s | %s %s", s.t.seq, kind, args, out.String(), resp, md, Delta(pre, post))
 	s.t.Line(line)
 	key := kind + ":" + out.String()
@@ -409,7 +434,7 @@ func (s *csSuite) opAdd() {
 	msg := &coinswaptypes.MsgAddLiquidity{MaxToken: sdk.Coin{Denom: tok, Amount: maxTok}, ExactStandardAmt: exact, MinLiquidity: minLiq, Deadline: dl, Sender: senderStr}
 	preMod, pre := s.modState(), s.w.Snapshot()
 	resp := ""
-	out := s.w.Deliver(func(ctx sdk.Context) error {
+	out := s.deliver(func(ctx sdk.Context) error {
 		res, err := s.ms.AddLiquidity(ctx, msg)
 		if err == nil {
 			resp = "mint=" + res.MintToken.Denom + ":" + res.MintToken.Amount.String()
@@ -489,7 +514,7 @@ func (s *csSuite) opRemove() {
 	msg := &coinswaptypes.MsgRemoveLiquidity{WithdrawLiquidity: sdk.Coin{Denom: lpt, Amount: w}, MinToken: minTok, MinStandardAmt: minStd, Deadline: dl, Sender: senderStr}
 	preMod, pre := s.modState(), s.w.Snapshot()
 	resp := ""
-	out := s.w.Deliver(func(ctx sdk.Context) error {
+	out := s.deliver(func(ctx sdk.Context) error {
 		res, err := s.ms.RemoveLiquidity(ctx, msg)
 		if err == nil {
 			var cs []string
@@ -592,7 +617,7 @@ func (s *csSuite) opSwap() {
 		Deadline: dl, IsBuyOrder: isBuy,
 	}
 	preMod, pre := s.modState(), s.w.Snapshot()
-	out := s.w.Deliver(func(ctx sdk.Context) error {
+	out := s.deliver(func(ctx sdk.Context) error {
 		_, err := s.ms.SwapCoin(ctx, msg)
 		return err
 	})
@@ -627,7 +652,7 @@ func (s *csSuite) opAutoSwap() {
 		}
 	}
 	preMod, pre := s.modState(), s.w.Snapshot()
-	out2 := s.w.Deliver(func(ctx sdk.Context) error {
+	out2 := s.deliver(func(ctx sdk.Context) error {
 		_, err := s.w.App.CoinswapKeeper.TradeInputForExactOutput(ctx,
 			coinswaptypes.Input{Coin: sdk.Coin{Denom: tok, Amount: maxIn}, Address: rcpt.String()},
 			coinswaptypes.Output{Coin: sdk.Coin{Denom: s.std, Amount: out}, Address: rcpt.String()})
@@ -750,7 +775,7 @@ func (s *csSuite) stepTime() {
 func init() { suites["coinswap"] = runCoinswap }
 
 func runCoinswap(seed uint64, nOps int, outPath string) map[string]int {
-	s := &csSuite{r: SeedRng("coinswap", seed), stat: map[string]int{}}
+	s := &csSuite{r: SeedRng("coinswap", seed), stat: map[string]int{}, laterOn: true}
 	s.t = NewTrace(outPath)
 	defer s.t.Close()
 	done := 0
@@ -780,6 +805,13 @@ func runCoinswap(seed uint64, nOps int, outPath string) map[string]int {
 		// the fee collector and the distribution account hold coins too (collected fees, the community pool): an account
 		// that is no party to a message can be debited only if it has something
 		for _, m := range []string{"fee_collector", "distribution"} {
+			if m == "distribution" {
+				// through the community pool, so that the distribution module's own accounting agrees with its balance
+				if err := s.w.App.DistrKeeper.FundCommunityPool(s.w.Ctx, sdk.NewCoins(sdk.NewCoin("stake", pow2(150)), sdk.NewCoin("ausdc", pow2(150))), s.w.Users[0]); err != nil {
+					panic(err)
+				}
+				continue
+			}
 			if err := s.w.App.BankKeeper.SendCoins(s.w.Ctx, s.w.Users[0], authtypes.NewModuleAddress(m),
 				sdk.NewCoins(sdk.NewCoin("stake", pow2(150)), sdk.NewCoin("ausdc", pow2(150)), sdk.NewCoin("abtc", pow2(150)), sdk.NewCoin("ibc/ETH", pow2(150)))); err != nil {
 				panic(err)
